@@ -5,3 +5,4 @@ pub mod outline;
 pub mod retryopts;
 pub mod stepmatch;
 pub mod sched;
+pub mod reporters;
